@@ -173,3 +173,48 @@ theorem xml_escape_needs_sanitizing : Xml.content (saxEscape [97, 1, 98]) = none
   decide
 
 end AasVerif.Props.C20
+
+namespace AasVerif.Props.C20
+open AasVerif AasVerif.Descr AasVerif.Lex AasVerif.Gen.Descr
+
+/-! ## Python docstring, C++ `///`: concrete facts
+(the general theorems `docstring_one_token`, `cpp_line_comments_only`, `py_line_comments_only`
+are planned, not proved — see design.d/C20.md; the real wrappers are judged by CPython, g++ and
+the spec lexers on every run) -/
+
+def sayHi : Text := [115, 97, 121, 32, 34, 104, 105, 34]
+
+/-- The short form `"""…"""` cannot hold a text ending in a quote (the defect of the unchanged
+tree): `"""say "hi""""` is an unterminated string. -/
+theorem docstring_short_form_needs_guard :
+    lexPython (pyDocShort.1 ++ applyRepls pyDocRepls sayHi ++ pyDocShort.2)
+      = [.str sayHi.dropLast, .bad "unterminated-string"] := by
+  decide
+
+/-- The wrapper puts such a text on a line of its own: one string token denoting the text. -/
+theorem docstring_say_hi :
+    (docstring pyDocRepls pyDocLimit pyDocNoShortSuffix pyDocShort pyDocLong sayHi = .ok
+      (pyDocLong.1 ++ sayHi ++ pyDocLong.2)) ∧
+    lexPython (pyDocLong.1 ++ sayHi ++ pyDocLong.2) = [.str (10 :: sayHi ++ [10])] := by
+  decide
+
+/-- Quotes and backslashes inside: `a\"""b""` is one token denoting exactly the text. -/
+theorem docstring_nasty_example :
+    lexPython (docstringText pyDocRepls pyDocLimit pyDocNoShortSuffix pyDocShort pyDocLong
+      [97, 92, 34, 34, 34, 98, 34, 34]) = [.str (10 :: [97, 92, 34, 34, 34, 98, 34, 34] ++ [10])] := by
+  decide
+
+/-- C++: a line ending in a backslash (also with white space after it) would splice the next line
+to the comment (the defect of the unchanged tree) … -/
+theorem cpp_needs_backslash_fix :
+    lexC cpp .code (lineCommentText cppEmpty cppPre id [97, 92, 32, 11, 98] ++ [10, 120])
+      = [.comment [47, 32, 97, 92, 32, 10, 47, 47, 47, 32, 98], .nl, .code 120] := by
+  decide
+
+/-- … with the fix every line is one comment and the next line is code. -/
+theorem cpp_backslash_fixed_example :
+    lexC cpp .code (lineCommentText cppEmpty cppPre (cppFixLine cppTrail cppRepl) [97, 92, 32, 11, 98] ++ [10, 120])
+      = [.comment [47, 32, 97, 38, 35, 57, 50, 59, 32], .nl, .comment [47, 32, 98], .nl, .code 120] := by
+  decide
+
+end AasVerif.Props.C20
